@@ -92,6 +92,7 @@ type Exec struct {
 	crashed    *goPanic
 	crashedIn  string
 	schedTrace []string
+	schedSteps []SchedStep
 	maxSched   int
 	// sleep-set partial-order reduction
 	preAt      map[int][]sleepEntry
